@@ -29,7 +29,7 @@ def describe(rep):
     rep.func(filter_stats, sort_stats, get_sorted, get_list_of_types, Hooks.add_to_stats, Hooks.increment_stats, DefaultHooks.post_step,
              LogWork.post_step, LogSDCIterations.post_step, LogSolution.post_step, LogRestarts.post_step, LogStepSize.post_step)
     from pySDC.core.controller import Controller
-    from pySDC.implementations.hooks.log_errors import LogGlobalErrorPostStep, LogLocalErrorPostStep, LogGlobalErrorPostIter
+    from pySDC.implementations.hooks.log_errors import LogGlobalErrorPostStep, LogLocalErrorPostStep, LogGlobalErrorPostIter, LogLocalErrorPostIter, LogGlobalErrorPostRun
     from pySDC.implementations.hooks.log_embedded_error_estimate import LogEmbeddedErrorEstimate
 
     rep.func(Controller.add_hook, Controller.return_stats, LogGlobalErrorPostStep.post_step, LogLocalErrorPostStep.post_step, LogEmbeddedErrorEstimate.post_step)
@@ -376,7 +376,7 @@ class SetEst(Hooks):
 
 def hist_case(rep, NP, MAXR, NSTEPS, FIRST, CRASH, prefix, shrink=False):
     from harness import c09
-    from pySDC.implementations.hooks.log_errors import LogGlobalErrorPostStep, LogLocalErrorPostStep, LogGlobalErrorPostIter
+    from pySDC.implementations.hooks.log_errors import LogGlobalErrorPostStep, LogLocalErrorPostStep, LogGlobalErrorPostIter, LogLocalErrorPostIter, LogGlobalErrorPostRun
     from pySDC.implementations.hooks.log_embedded_error_estimate import LogEmbeddedErrorEstimate, LogEmbeddedErrorEstimatePostIter
     from pySDC.implementations.hooks.log_work import LogWork, LogSDCIterations
     from pySDC.implementations.hooks.log_solution import LogSolution
@@ -415,7 +415,7 @@ def hist_case(rep, NP, MAXR, NSTEPS, FIRST, CRASH, prefix, shrink=False):
         CALLS.clear()
         CALLS.update({'add': [], 'iters': {}, 'work': {}, 'post': [], 'attempt': 0})
         r = c09.hist_run(c, NP, MAXR, NSTEPS, FIRST, CRASH, extra_hooks=[SetEst, LogEmbeddedErrorEstimatePostIter, LogWork, LogSDCIterations, LogSolution, LogStepSize, LogGlobalErrorPostStep,
-                                                                           LogLocalErrorPostStep, LogEmbeddedErrorEstimate, LogGlobalErrorPostIter, Count], shrink=opts)
+                                                                           LogLocalErrorPostStep, LogEmbeddedErrorEstimate, LogGlobalErrorPostIter, LogLocalErrorPostIter, LogGlobalErrorPostRun, Count], shrink=opts)
         bad = []
         if r['status'] == 'ok':
             bad = judge_stats(r, NP)
@@ -487,9 +487,15 @@ def judge_stats(r, NP):
                 bad.append(('work-counter', {'time': k.time, 'logged_solver_calls': v, 'solver_calls_made': solves}))
             if typ == 'restart' and v != 0:
                 bad.append(('accepted-step-flagged-restart', {'time': k.time}))
+    # recorded once per run: exactly one record, at the end time of the last accepted step
+    if posts:
+        recs = filter_stats(st, type='e_global_post_run')
+        t_end = max(round(x[1] + x[6], 9) for x in posts)
+        if sorted(round(float(k.time), 9) for k in recs) != [t_end]:
+            bad.append(('one-record-per-run', {'type': 'e_global_post_run', 'record_times': sorted(float(k.time) for k in recs), 'end_of_last_accepted_step': t_end}))
     # quantities recorded after every iteration: one surviving record per accepted step AND iteration, keyed with the step's restart count
     iter_start = ['residual_post_iteration']
-    iter_end = ['e_global_post_iteration', 'error_embedded_estimate_post_iteration']
+    iter_end = ['e_global_post_iteration', 'e_local_post_iteration', 'error_embedded_estimate_post_iteration']
     for typ in iter_start + iter_end:
         recs = filter_stats(st, type=typ, recomputed=False)
         end = typ in iter_end
